@@ -61,13 +61,17 @@ class Baton:
 
 
 class Op:
-    __slots__ = ('label', 'guard', 'action', 'visible')
+    """guard/action: the operation proper.  tmo: what happens instead when the operation's time-out fires (only for blocking calls that
+    were given a timeout); a thread whose guard is false but which has a tmo can be chosen by the scheduler - that choice is 'the
+    time-out fires now' - but only as an alternative to the threads that can really run, or when nothing else can run at all."""
+    __slots__ = ('label', 'guard', 'action', 'visible', 'tmo')
 
-    def __init__(self, label, guard, action, visible):
+    def __init__(self, label, guard, action, visible, tmo=None):
         self.label = label
         self.guard = guard
         self.action = action
         self.visible = visible
+        self.tmo = tmo
 
 
 def _true():
@@ -91,6 +95,7 @@ class VT:
         self.real: Optional[_rt.Thread] = None
         self.inject: Dict[int, BaseException] = {}   # op index -> exception raised in place of the operation
         self.oplog: Optional[list] = None
+        self.fire_tmo = False
 
     def __repr__(self):
         return f'<VT {self.id} {self.name} {self.state}>'
@@ -220,7 +225,7 @@ class Sched:
             self.internal = e
             self._abort('internal', repr(e))
 
-    def op(self, label: str, guard, action, visible: bool, note=None):
+    def op(self, label: str, guard, action, visible: bool, note=None, tmo=None):
         me = self.current
         if self.aborting:
             raise Abort()
@@ -236,7 +241,8 @@ class Sched:
             if me.oplog is not None:
                 me.oplog.append((label, 'INJECTED ' + type(inj).__name__, note))
             raise inj
-        me.pending = Op(label, guard, action, visible)
+        me.pending = Op(label, guard, action, visible or tmo is not None, tmo)
+        me.fire_tmo = False
         nxt = self._pick()
         if nxt is None:
             self._abort('deadlock', self.blocked_set())
@@ -248,7 +254,12 @@ class Sched:
             if self.aborting:
                 raise Abort()
             self.current = me
-        res = action()
+        if me.fire_tmo:
+            me.fire_tmo = False
+            label = label + '!timeout'
+            res = tmo()
+        else:
+            res = action()
         me.pending = None
         me.nops += 1
         me.hist = hash((me.hist, label, _h(res)))
@@ -278,14 +289,21 @@ class Sched:
             for t in live:
                 if not t.pending.visible and t.pending.guard():
                     return t
-        enabled = [t for t in live if t.pending.guard()]
+        ready = [t for t in live if t.pending.guard()]
+        # threads blocked in a call that was given a time-out: 'the time-out fires' is an alternative, listed after the threads that can run
+        waiting = [t for t in live if t.pending.tmo is not None and t not in ready]
+        enabled = ready + waiting
         if not enabled:
             return None
         if len(enabled) == 1:
+            enabled[0].fire_tmo = enabled[0] in waiting
             return enabled[0]
-        if cur is not None and cur in enabled:
+        if cur is not None and cur in ready:
             enabled.remove(cur)
             enabled.insert(0, cur)
+        if not ready:
+            # nothing can run: time passes until the first time-out fires (no choice recorded when there is only one kind of progress)
+            pass
         try:
             idx = self.policy.choose(self, enabled)
         except Cut:
@@ -295,9 +313,10 @@ class Sched:
             self.internal = e
             self._abort('internal', repr(e))
             raise Abort()
-        self.points.append((tuple((t.name, t.pending.label) for t in enabled), idx))
+        self.points.append((tuple((t.name, t.pending.label + ('!timeout' if t in waiting else '')) for t in enabled), idx))
         self.choices.append(idx)
         self.nvisible += 1
+        enabled[idx].fire_tmo = enabled[idx] in waiting
         return enabled[idx]
 
     def blocked_set(self):
@@ -396,13 +415,11 @@ class Event:
             self.s.op(self.lbl + '.wake', lambda: w[0], _true, False)
             return True
 
-        def wake():
-            if w[0]:
-                return True
+        def gave_up():
             if w in self.waiters:
                 self.waiters.remove(w)
-            return False
-        return self.s.op(self.lbl + '.wake|timeout', _true, wake, True)
+            return w[0]
+        return self.s.op(self.lbl + '.wake', lambda: w[0], _true, True, tmo=gave_up)
 
 
 class BrokenBarrierError(RuntimeError):
@@ -418,6 +435,7 @@ class Barrier:
         self.count = 0
         self.gen = 0
         self.broken = False
+        self.reset_gens: set = set()          # generations whose waiters were thrown out by reset()
         self.lbl = f'bar{self.uid}'
 
     def key(self):
@@ -449,18 +467,16 @@ class Barrier:
         g = box['gen']
 
         def passed():
-            if self.broken:
+            if self.broken or g in self.reset_gens:
                 raise BrokenBarrierError()
             return idx
         if timeout is None:
             return self.s.op(self.lbl + '.pass', lambda: self.gen != g or self.broken, passed, False)
 
-        def passed_or_timeout():
-            if self.gen != g:
-                return idx
+        def timed_out():
             self.broken = True
             raise BrokenBarrierError()
-        return self.s.op(self.lbl + '.pass|timeout', _true, passed_or_timeout, True)
+        return self.s.op(self.lbl + '.pass', lambda: self.gen != g or self.broken, passed, True, tmo=timed_out)
 
     def abort(self):
         def act():
@@ -469,6 +485,9 @@ class Barrier:
 
     def reset(self):
         def act():
+            # CPython: threads waiting at the barrier receive BrokenBarrierError, the barrier is then empty and usable again
+            if self.count > 0:
+                self.reset_gens.add(self.gen)
             self.broken = False
             self.count = 0
             self.gen += 1
@@ -502,6 +521,8 @@ class Lock:
             return False
         if blocking and (timeout is None or timeout < 0):
             return self.s.op(self.lbl + '.acquire', lambda: self._free_for(me), act, True)
+        if blocking and timeout > 0:
+            return self.s.op(self.lbl + '.acquire', lambda: self._free_for(me), act, True, tmo=lambda: False)
         return self.s.op(self.lbl + '.try_acquire', _true, act, True)
 
     def release(self):
@@ -563,13 +584,11 @@ class Condition:
             self.s.op(self.lbl + '.wake', lambda: w[0], _true, False)
             got = True
         else:
-            def wake():
-                if w[0]:
-                    return True
+            def gave_up():
                 if w in self.waiters:
                     self.waiters.remove(w)
-                return False
-            got = self.s.op(self.lbl + '.wake|timeout', _true, wake, True)
+                return w[0]
+            got = self.s.op(self.lbl + '.wake', lambda: w[0], _true, True, tmo=gave_up)
 
         def reacq():
             self.lock.owner = me
@@ -616,6 +635,8 @@ class Semaphore:
             return False
         if blocking and timeout is None:
             return self.s.op(self.lbl + '.acquire', lambda: self.value > 0, act, True)
+        if blocking and timeout > 0:
+            return self.s.op(self.lbl + '.acquire', lambda: self.value > 0, act, True, tmo=lambda: False)
         return self.s.op(self.lbl + '.try_acquire', _true, act, True)
 
     def release(self, n=1):
@@ -672,7 +693,7 @@ class Thread:
         if timeout is None:
             self._s.op(f'thr{self._vt.id}.join', lambda: self._vt.state != 'run', _true, True)
         else:
-            self._s.op(f'thr{self._vt.id}.join|timeout', _true, _true, True)
+            self._s.op(f'thr{self._vt.id}.join', lambda: self._vt.state != 'run', _true, True, tmo=_true)
 
     @property
     def ident(self):
@@ -751,6 +772,10 @@ class Queue:
             self.unfinished += 1
         if self.maxsize > 0 and block and timeout is None:
             self.s.op(self.lbl + '.put', lambda: len(self.q) < self.maxsize, act, True, note=_h(item))
+        elif self.maxsize > 0 and block and timeout:
+            def full():
+                raise Full()
+            self.s.op(self.lbl + '.put', lambda: len(self.q) < self.maxsize, act, True, note=_h(item), tmo=full)
         else:
             self.s.op(self.lbl + '.put', _true, act, self.shared or self.maxsize > 0, note=_h(item))
 
@@ -761,6 +786,10 @@ class Queue:
         self._role('consumer')
         if block and timeout is None:
             return self.s.op(self.lbl + '.get', lambda: len(self.q) > 0, self.q.popleft, self.shared)
+        if block and timeout:
+            def empty():
+                raise Empty()
+            return self.s.op(self.lbl + '.get', lambda: len(self.q) > 0, self.q.popleft, True, tmo=empty)
 
         def act():
             if not self.q:
@@ -819,6 +848,7 @@ class VSocket:
         self.rx = bytearray()
         self.peer: Optional['VSocket'] = None
         self.closed = False
+        self.wr_closed = False
         self.tx_total = 0
         self.rx_total = 0
         self.sent_after_peer_close = 0
@@ -828,7 +858,7 @@ class VSocket:
         self.tag = None               # set by the harness (e.g. seat of the client)
 
     def key(self):
-        return ('sock', bytes(self.rx), self.closed, self.listening, len(self.backlog))
+        return ('sock', bytes(self.rx), self.closed, self.wr_closed, self.listening, len(self.backlog))
 
     # -- server side
     def bind(self, addr):
@@ -847,11 +877,16 @@ class VSocket:
         if self.tmo is None:
             return self.s.op(self.lbl + '.accept', lambda: len(self.backlog) > 0 or self.closed, self._chk(act), False)
 
+        if self.tmo:
+            def gave_up():
+                raise timeout('timed out')
+            return self.s.op(self.lbl + '.accept', lambda: len(self.backlog) > 0 or self.closed, self._chk(act), True, tmo=gave_up)
+
         def act_t():
             if not self.backlog:
-                raise timeout('timed out')
+                raise BlockingIOError(11, 'Resource temporarily unavailable')
             return act()
-        return self.s.op(self.lbl + '.accept|timeout', _true, act_t, True)
+        return self.s.op(self.lbl + '.accept_nowait', _true, act_t, True)
 
     def _chk(self, f):
         def g():
@@ -887,6 +922,8 @@ class VSocket:
             p = self.peer
             if p is None:
                 raise OSError(107, 'Transport endpoint is not connected')
+            if self.wr_closed:
+                raise OSError(32, 'Broken pipe')
             self.tx_total += len(data)
             if p.closed:
                 self.sent_after_peer_close += len(data)
@@ -900,7 +937,7 @@ class VSocket:
 
     def recv(self, n, flags=0):
         def ok():
-            return len(self.rx) > 0 or self.closed or self.peer is None or self.peer.closed
+            return len(self.rx) > 0 or self.closed or self.peer is None or self.peer.closed or self.peer.wr_closed
 
         def act():
             if self.peer is None:
@@ -912,11 +949,16 @@ class VSocket:
         if self.tmo is None:
             return self.s.op(self.lbl + '.recv', ok, self._chk(act), False)
 
+        if self.tmo:
+            def gave_up():
+                raise timeout('timed out')
+            return self.s.op(self.lbl + '.recv', ok, self._chk(act), True, tmo=gave_up)
+
         def act_t():
             if not ok():
-                raise timeout('timed out')
+                raise BlockingIOError(11, 'Resource temporarily unavailable')
             return self._chk(act)()
-        return self.s.op(self.lbl + '.recv|timeout', _true, act_t, True)
+        return self.s.op(self.lbl + '.recv_nowait', _true, act_t, True)
 
     def close(self):
         def act():
@@ -929,7 +971,14 @@ class VSocket:
         self.s.op(self.lbl + '.close', _true, act, False)
 
     def shutdown(self, how):
-        self.close()
+        # SHUT_WR: the peer sees end-of-stream once it has read what was sent, this end can still receive; SHUT_RD / SHUT_RDWR
+        # are modelled as a full close of this end
+        if how == SHUT_WR:
+            def act():
+                self.wr_closed = True
+            self.s.op(self.lbl + '.shutdown_wr', _true, act, False)
+        else:
+            self.close()
 
     def settimeout(self, t):
         self.tmo = t
